@@ -61,6 +61,108 @@ def suffixes(rng):
     return bytes([0x30, 0x82, 0xff, 0xff])
 
 
+class _Over(Exception):
+    pass
+
+
+class _B:
+    """TLV reader with the library's reading of identifier and length octets (see indep_header), used by the
+    extent oracles below in place of the strict X.690 reader"""
+    BerError = _Over
+
+    @staticmethod
+    def parse_tlv(buf, off=0, limit=None):
+        data = bytes(buf[off:limit])
+        r = indep_header(data)
+        if not r.startswith("ok "):
+            raise _Over(f"element at {off} does not fit ({r})")
+        f = r.split(" ")
+        length, tail = int(f[4]), (b"" if f[5] == "-" else bytes.fromhex(f[5]))
+        hb = len(data) - len(tail)
+        ident = data[0]
+        return ident, data[hb:hb + length], off + hb + length, True
+
+    @staticmethod
+    def int_value(content):
+        return (int.from_bytes(content, "big", signed=True) if content else 0, True)
+
+
+def indep_value_rest(x):
+    """octets left after the first TLV of x (declared extent), or None if x does not start with a plain TLV"""
+    B = _B
+    try:
+        _, _, end, _ = B.parse_tlv(x, 0)
+    except B.BerError:
+        return None
+    return x[end:]
+
+
+def indep_pdu_extents_ok(x):
+    """does a GetResponse PDU keep every element inside the element that holds it, with nothing left over at the PDU
+    level? (True / False; None = not a plain GetResponse, no opinion)"""
+    B = _B
+    try:
+        tag, c, end, _ = B.parse_tlv(x, 0)
+        if tag != 0xA2:
+            return None
+        pos = 0
+        for _ in range(3):
+            t, _, pos, _ = B.parse_tlv(c, pos)
+            if t != 0x02:
+                return None
+        t, vb, pos, _ = B.parse_tlv(c, pos)
+        if t != 0x30:
+            return None
+        if pos != len(c):
+            return False                      # octets after the varbind list inside the PDU
+        q = 0
+        while q < len(vb):
+            t, one, q, _ = B.parse_tlv(vb, q)  # raises when a varbind runs past the list
+            if t != 0x30:
+                return None
+            t2, _, e2, _ = B.parse_tlv(one, 0)
+            if t2 not in (0x06, 0x0D):
+                return None
+            B.parse_tlv(one, e2)              # the value must lie inside its varbind
+        return True
+    except B.BerError:
+        return False
+
+
+def indep_v3_outline(dg):
+    """(msgID, engine id, boots, time, user) of a v3 message read with every element confined to the element that
+    holds it; raises BerError when a declared extent is exceeded; None when the outline is not the plain v3 shape"""
+    B = _B
+    tag, c, end, _ = B.parse_tlv(dg, 0)
+    if tag != 0x30 or end != len(dg):
+        return None
+    t, ver, pos, _ = B.parse_tlv(c, 0)
+    if t != 0x02 or B.int_value(ver)[0] != 3:
+        return None
+    t, hdr, pos, _ = B.parse_tlv(c, pos)
+    if t != 0x30:
+        return None
+    t, mid, hp, _ = B.parse_tlv(hdr, 0)
+    if t != 0x02:
+        return None
+    t, _, hp, _ = B.parse_tlv(hdr, hp)
+    t, _, hp, _ = B.parse_tlv(hdr, hp)
+    t, _, hp, _ = B.parse_tlv(hdr, hp)        # msgSecurityModel must still lie inside msgGlobalData
+    t, sp, pos, _ = B.parse_tlv(c, pos)       # msgSecurityParameters start where msgGlobalData ends
+    if t != 0x04:
+        return None
+    t, usm, e, _ = B.parse_tlv(sp, 0)
+    if t != 0x30:
+        return None
+    out, q = [], 0
+    for want in (0x04, 0x02, 0x02, 0x04):
+        t, v, q, _ = B.parse_tlv(usm, q)
+        if t != want:
+            return None
+        out.append(v)
+    return (B.int_value(mid)[0], out[0], B.int_value(out[1])[0], B.int_value(out[2])[0], out[3])
+
+
 def run(chk, model_ok=True):
     rng = random.Random(chk.seed)
     quick = chk.tier == "quick"
@@ -127,6 +229,44 @@ def run(chk, model_ok=True):
             if bad <= 5:
                 chk.violation("oracle", f"extent violated: {ln[:160]} -> {out[:100]} (expected {want[:100]})",
                               {"kind": "oracle", "lines": [ln], "impl": [out], "expected": want})
+    # independent reading of extents at the value, PDU and message layers (every element confined to the one holding it)
+    B = _B
+    for ln, out in zip(st0.lines, st0.impl):
+        parts = ln.split(" ")
+        if not out.startswith("ok") or parts[-1] == "-":
+            continue
+        try:
+            x = bytes.fromhex(parts[-1])
+        except ValueError:
+            continue
+        why = None
+        if parts[0] == "value":
+            rest = indep_value_rest(x)
+            got_rest = out.split(" ")[-1]
+            if rest is not None and got_rest != (rest.hex() or "-"):
+                why = f"the value's element ends {len(rest)} octets before the end of the input, the decoder left {got_rest} unread"
+        elif parts[0] == "pdu":
+            if indep_pdu_extents_ok(x) is False:
+                why = "an element of the PDU runs past the element that holds it, or octets are left over inside the PDU, yet it was accepted"
+        elif parts[0] == "msg" and len(parts) == 3 and parts[1] == "v3":
+            try:
+                o = indep_v3_outline(x)
+            except B.BerError as e:
+                why = f"a field of the message lies outside the element that declares it ({e}), yet the message was accepted"
+                o = None
+            if o is not None:
+                f = out.split(" ")
+                try:
+                    got = (int(f[1]), b"" if f[5] == "-" else bytes.fromhex(f[5]), int(f[6]), int(f[7]), b"" if f[8] == "-" else bytes.fromhex(f[8]))
+                    if got != o:
+                        why = f"read with every element confined to its holder the message says (msgID, engine, boots, time, user) = {o}, the decoder says {got}"
+                except (ValueError, IndexError):
+                    pass
+        if why:
+            bad += 1
+            if bad <= 5:
+                chk.violation("oracle", f"extent violated: {why}: {ln[:200]} -> {out[:100]}",
+                              {"kind": "oracle", "lines": [ln], "impl": [out], "expected": why})
     # independent reading of every header: the content starts right after the length octets
     for ln, out in zip(st0.lines, st0.impl):
         if ln.startswith("hdr "):
